@@ -44,6 +44,9 @@ type ctx struct {
 	// yenK0 enables the check of YenKShortestPaths with k = 0.
 	yenK0 bool
 	gs    *guardState
+	// weightOnly: the graph is a graph.Graph + Weight view without
+	// WeightedEdge; DijkstraAllPaths is then checked by eitherReading.
+	weightOnly bool
 }
 
 // nT is the number of target indices: the nodes and one or two absent IDs.
@@ -752,7 +755,7 @@ func (c *ctx) checkAlts(routine string, s int, sh path.ShortestAlts) {
 func (c *ctx) allPairs() {
 	r := c.r
 	// DijkstraAllPaths
-	{
+	if !c.weightOnly {
 		var ap path.AllShortest
 		msg := try(func() { ap = path.DijkstraAllPaths(c.gg) })
 		switch {
@@ -928,7 +931,44 @@ func (c *ctx) checkAllShortest(routine string, ap path.AllShortest, forward, neg
 }
 
 // run performs every static check on the container.
+// uniformCost checks path.UniformCost(g) against its documentation on every
+// ordered pair of node IDs (and absent IDs): 0,true for x == y; 1,true if the
+// edge x->y exists; +Inf,false otherwise.
+func (c *ctx) uniformCost() {
+	var uc path.Weighting
+	if msg := try(func() { uc = path.UniformCost(c.tg) }); msg != "" {
+		c.failf("UniformCost", 0, 0, "unexpected panic: %s", msg)
+		return
+	}
+	n := c.r.n
+	for x := 0; x < n+2; x++ {
+		for y := 0; y < n+2; y++ {
+			var w float64
+			var ok bool
+			if msg := try(func() { w, ok = uc(c.id(x), c.id(y)) }); msg != "" {
+				c.failf("UniformCost", x, y, "unexpected panic: %s", msg)
+				continue
+			}
+			wantW, wantOK := inf, false
+			switch {
+			case x == y:
+				wantW, wantOK = 0, true
+			case c.present(x) && c.present(y) && c.sp.has[x][y]:
+				wantW, wantOK = 1, true
+			}
+			if w != wantW || ok != wantOK {
+				c.failf("UniformCost", x, y, "UniformCost(g)(x,y) = (%v, %v), documented (%v, %v) [edge x->y exists: %v, edge y->x exists: %v]",
+					w, ok, wantW, wantOK, wantOK && x != y, c.present(x) && c.present(y) && c.sp.has[y][x])
+			}
+		}
+	}
+	c.count("uniformcost_tables", 1)
+}
+
 func (c *ctx) run() {
+	if !c.lite {
+		c.uniformCost()
+	}
 	for s := 0; s <= c.r.n; s++ {
 		c.singleSource(s)
 	}
